@@ -10,6 +10,8 @@
 //   program = threads separated by '|', ops separated by ',' (value of the op of thread t at position i is 100*(t+1)+i):
 //     E<k> emplace(rvalue)   I<k> insert(const&)   T<k> try_emplace (map) / emplace(lvalue) (set, fixed)
 //     B<k> map[k] (set/fixed: emplace)             F<k> find          C<k> contains
+//     L<k> emplace(rvalue) whose element constructor blocks for 15 ms of VIRTUAL time (usleep under dsched) between the
+//          CAS EMPTY->BUSY and the tag store: every other inserter of a colliding key has to wait on the BUSY byte
 //   choices = comma separated replay list for strategy 2
 // stdout: <case-id> ok steps=<n> | <per-op results: +v inserted, -v existed, X full, bv operator[], v / . find, 1 / 0 contains>
 //         fin=<sorted k:v> size=<n> tabs=<bucket counts> | <monitor>=0/1 ... [! first violation]
@@ -35,6 +37,8 @@ static bool g_read_raw = false;               // key comparison looked at a slot
 static bool g_double_consume = false;         // an argument already moved-from was consumed again
 static std::string* g_first;
 static thread_local int tl_cur_v = 0;
+static thread_local bool tl_slow = false;   // the in-table constructor of the current op sleeps (virtual time)
+static inline void slow_ctor() { if (tl_slow && verif::self() >= 0) usleep(15000); }
 
 static inline void upoint(int line) {
   if (verif::self() >= 0) verif::point(verif::K_USER, 0, nullptr, __FILE__, line);
@@ -49,7 +53,7 @@ struct Elem {
   int id; int val; volatile uint32_t magic; mutable bool moved = false;
   Elem(int i, int v) : id(i), val(v), magic(MAGIC) {}
   Elem(Elem&& o) noexcept {
-    upoint(__LINE__);
+    upoint(__LINE__); slow_ctor();
     if (o.moved) { g_double_consume = true; note("argument consumed twice"); }
     id = o.id; val = o.val; o.moved = true; magic = MAGIC; (*g_ctor)[this]++;
   }
@@ -65,7 +69,7 @@ struct Elem {
 struct Key {
   int id; volatile uint32_t magic;
   Key(int i) : id(i), magic(MAGIC) {}
-  Key(const Key& o) noexcept { upoint(__LINE__); id = o.id; magic = MAGIC; (*g_ctor)[this]++; }
+  Key(const Key& o) noexcept { upoint(__LINE__); slow_ctor(); id = o.id; magic = MAGIC; (*g_ctor)[this]++; }
   ~Key() { if (g_ctor->count(this)) (*g_dtor)[this]++; magic = 0; }
   friend bool operator==(const Key& stored, const Key& key) noexcept {
     upoint(__LINE__);
@@ -122,7 +126,8 @@ struct Runner {
   }
   void destroy() { delete fx; delete st; delete mp; fx = nullptr; st = nullptr; mp = nullptr; }
   void emplace_like(Op& op) {
-    tl_cur_v = op.v;
+    tl_cur_v = op.v; tl_slow = op.k == 'L';
+    struct Reset { ~Reset() { tl_slow = false; } } reset_;
     if (mode == 'X') {
       Elem arg(op.key, op.v);
       auto r = op.k == 'I' ? fx->insert(static_cast<const Elem&>(arg)) : op.k == 'T' ? fx->emplace(static_cast<const Elem&>(arg)) : fx->emplace(std::move(arg));
@@ -234,7 +239,8 @@ int main() {
         }
       });
     }
-    verif::Options opt; opt.seed = seed; opt.strategy = strategy; opt.max_steps = 60000;
+    verif::Options opt; opt.seed = seed; opt.strategy = strategy;
+    opt.max_steps = prog.find('L') != std::string::npos ? 900000 : 60000;   // slow-constructor cases spin through the virtual sleep
     if (choices != "-") { std::stringstream cs(choices); std::string c; while (std::getline(cs, c, ',')) opt.choices.push_back(atoi(c.c_str())); }
     verif::Result r = verif::run(bodies, opt);
     // ---------------------------------------------------------------- canonical outcome
